@@ -359,7 +359,7 @@ func Series(t *rapid.T, n int, scale float64, label string) []float64 {
 				v[i] = v[i-1]
 				i++
 			default:
-				v[i] = -scale * math.Log(1-rapid.Float64Range(0, 0.999).Draw(t, label+".e"))
+				v[i] = scale * math.Abs(math.Log(1-rapid.Float64Range(0, 0.999).Draw(t, label+".e")))
 				i++
 			}
 		}
